@@ -1,14 +1,19 @@
 import EpsicProofs.Lemmas.Algebra
 /-! # C03 — quaternion and biquaternion types are isomorphic to Jones matrices
-Theorems over an arbitrary field `K` (hence for every input). -/
+
+Every theorem is over an arbitrary field `K` of characteristic zero (so it holds for ℚ — the
+instance the driver runs and the harness compares exactly — and for ℝ), for all arguments.
+`convertHC/convertUC` are `convert(Quaternion<complex<T>,Hermitian|Unitary>)`, `toHermitian` is
+`convert(Jones)`, `toUnitary` is `unitary(Jones)`, `convertHR/convertUR` the real overloads. -/
 set_option linter.unusedSectionVars false
+set_option linter.unusedVariables false
 namespace Epsic.C03
 open Epsic Epsic.Pauli
 variable {K : Type} [Field K] [DecidableEq K] [CharZero K]
 
-/-- tactic: split into scalar components, unfold the model, close by `ring` -/
+/-- split into scalar components, unfold the model, close by field arithmetic -/
 macro "alg" : tactic =>
-  `(tactic| ((first | ext | skip) <;> simp only [epsic] <;> (try field_simp) <;> ring))
+  `(tactic| ((first | ext | skip) <;> simp only [epsic, Cx.norm_def] <;> (try field_simp) <;> ring))
 
 /-! ## the maps are mutually inverse -/
 theorem toHermitian_convertHC (q : Quat (Cx K)) : toHermitian (convertHC q) = q := by alg
@@ -16,9 +21,129 @@ theorem convertHC_toHermitian (j : Jones K) : convertHC (toHermitian j) = j := b
 theorem toUnitary_convertUC (q : Quat (Cx K)) : toUnitary (convertUC q) = q := by alg
 theorem convertUC_toUnitary (j : Jones K) : convertUC (toUnitary j) = j := by alg
 
+/-! ## sum, difference, negation, zero, identity, scalar multiples -/
+theorem convertHC_add (a b : Quat (Cx K)) : convertHC (a + b) = convertHC a + convertHC b := by alg
+theorem convertUC_add (a b : Quat (Cx K)) : convertUC (a + b) = convertUC a + convertUC b := by alg
+theorem convertHC_sub (a b : Quat (Cx K)) : convertHC (a - b) = convertHC a - convertHC b := by alg
+theorem convertUC_sub (a b : Quat (Cx K)) : convertUC (a - b) = convertUC a - convertUC b := by alg
+theorem convertHC_neg (a : Quat (Cx K)) : convertHC (-a) = -convertHC a := by alg
+theorem convertUC_neg (a : Quat (Cx K)) : convertUC (-a) = -convertUC a := by alg
+theorem convertHC_zero : convertHC (Quat.ofScalar (zero : Cx K)) = Jones.zeroJ := by alg
+theorem convertUC_zero : convertUC (Quat.ofScalar (zero : Cx K)) = Jones.zeroJ := by alg
+theorem convertHC_identity : convertHC (Quat.identity : Quat (Cx K)) = Jones.identity := by alg
+theorem convertUC_identity : convertUC (Quat.identity : Quat (Cx K)) = Jones.identity := by alg
+theorem convertHC_smul (a : Quat (Cx K)) (c : Cx K) : convertHC (Quat.smul a c) = Jones.smulC c (convertHC a) := by alg
+theorem convertUC_smul (a : Quat (Cx K)) (c : Cx K) : convertUC (Quat.smul a c) = Jones.smulC c (convertUC a) := by alg
+
 /-! ## products -/
-theorem convertHC_mul (a b : Quat (Cx K)) :
-    convertHC (Quat.mulH a b) = convertHC a * convertHC b := by alg
-theorem convertUC_mul (a b : Quat (Cx K)) :
-    convertUC (Quat.mulU a b) = convertUC a * convertUC b := by alg
+theorem convertHC_mul (a b : Quat (Cx K)) : convertHC (Quat.mulH a b) = convertHC a * convertHC b := by alg
+theorem convertUC_mul (a b : Quat (Cx K)) : convertUC (Quat.mulU a b) = convertUC a * convertUC b := by alg
+theorem convertUR_mul (a b : Quat K) : convertUR (Quat.mulU a b) = convertUR a * convertUR b := by alg
+
+/-! ## determinant, trace, Frobenius norm, conjugate, Hermitian transpose -/
+theorem det_convertHC (a : Quat (Cx K)) : (convertHC a).det = Quat.detH a := by alg
+theorem det_convertUC (a : Quat (Cx K)) : (convertUC a).det = Quat.detU a := by alg
+theorem trace_convertHC (a : Quat (Cx K)) : (convertHC a).trace = Quat.trace a := by alg
+theorem trace_convertUC (a : Quat (Cx K)) : (convertUC a).trace = Quat.trace a := by alg
+theorem norm_convertHC (a : Quat (Cx K)) : (convertHC a).norm = Quat.normC a := by alg
+theorem norm_convertUC (a : Quat (Cx K)) : (convertUC a).norm = Quat.normC a := by alg
+theorem conj_convertHC (a : Quat (Cx K)) : (convertHC a).conj = convertHC (Quat.conjHC a) := by alg
+theorem conj_convertUC (a : Quat (Cx K)) : (convertUC a).conj = convertUC (Quat.conjUC a) := by alg
+theorem herm_convertHC (a : Quat (Cx K)) : (convertHC a).herm = convertHC (Quat.hermHC a) := by alg
+theorem herm_convertUC (a : Quat (Cx K)) : (convertUC a).herm = convertUC (Quat.hermUC a) := by alg
+
+/-! ## inverse: defined exactly when the matrix inverse is, and mapped to it -/
+theorem convertHC_inv (a : Quat (Cx K)) : convertHC <$> Quat.invHC a = (convertHC a).inv := by
+  by_cases h : (Quat.detH a).norm = 0
+  · have hd : (convertHC a).det.norm = 0 := by rw [det_convertHC]; exact h
+    simp only [Quat.invHC, Quat.invWith, Quat.recipNegC, Jones.inv, Cx.div_err h, Cx.div_err hd]; rfl
+  · have hd : (convertHC a).det.norm ≠ 0 := by rw [det_convertHC]; exact h
+    simp only [Quat.invHC, Quat.invWith, Quat.recipNegC, Jones.inv, Cx.div_ok h, Cx.div_ok hd]
+    show Except.ok _ = Except.ok _
+    congr 1
+    simp only [det_convertHC]
+    simp only [epsic] at h
+    ext <;> simp only [epsic] <;> field_simp <;> (try simp only [epsic, Cx.norm_def]) <;> ring
+theorem convertUC_inv (a : Quat (Cx K)) : convertUC <$> Quat.invUC a = (convertUC a).inv := by
+  by_cases h : (Quat.detU a).norm = 0
+  · have hd : (convertUC a).det.norm = 0 := by rw [det_convertUC]; exact h
+    simp only [Quat.invUC, Quat.invWith, Quat.recipNegC, Jones.inv, Cx.div_err h, Cx.div_err hd]; rfl
+  · have hd : (convertUC a).det.norm ≠ 0 := by rw [det_convertUC]; exact h
+    simp only [Quat.invUC, Quat.invWith, Quat.recipNegC, Jones.inv, Cx.div_ok h, Cx.div_ok hd]
+    show Except.ok _ = Except.ok _
+    congr 1
+    simp only [det_convertUC]
+    simp only [epsic] at h
+    ext <;> simp only [epsic] <;> field_simp <;> (try simp only [epsic, Cx.norm_def]) <;> ring
+/-- non-singular case spelled out: the inverse exists on both sides -/
+theorem invHC_ok (a : Quat (Cx K)) (h : (Quat.detH a).norm ≠ 0) : ∃ x, Quat.invHC a = .ok x := by
+  simp only [Quat.invHC, Quat.invWith, Quat.recipNegC, Cx.div_ok h]; exact ⟨_, rfl⟩
+theorem invUC_ok (a : Quat (Cx K)) (h : (Quat.detU a).norm ≠ 0) : ∃ x, Quat.invUC a = .ok x := by
+  simp only [Quat.invUC, Quat.invWith, Quat.recipNegC, Cx.div_ok h]; exact ⟨_, rfl⟩
+/-- singular case: both sides report the division error -/
+theorem inv_singular_H (a : Quat (Cx K)) (h : (Quat.detH a).norm = 0) :
+    Quat.invHC a = .error .div0 ∧ (convertHC a).inv = .error .div0 := by
+  have hd : (convertHC a).det.norm = 0 := by rw [det_convertHC]; exact h
+  constructor
+  · simp only [Quat.invHC, Quat.invWith, Quat.recipNegC, Cx.div_err h]; rfl
+  · simp only [Jones.inv, Cx.div_err hd]; rfl
+theorem inv_singular_U (a : Quat (Cx K)) (h : (Quat.detU a).norm = 0) :
+    Quat.invUC a = .error .div0 ∧ (convertUC a).inv = .error .div0 := by
+  have hd : (convertUC a).det.norm = 0 := by rw [det_convertUC]; exact h
+  constructor
+  · simp only [Quat.invUC, Quat.invWith, Quat.recipNegC, Cx.div_err h]; rfl
+  · simp only [Jones.inv, Cx.div_err hd]; rfl
+
+/-! ## real quaternions: the real overloads are the complex ones on real components -/
+theorem convertHR_eq (q : Quat K) : convertHR q = convertHC (Quat.ofReal q) := by alg
+theorem convertUR_eq (q : Quat K) : convertUR q = convertUC (Quat.ofReal q) := by alg
+/-- a real Hermitian-basis quaternion always maps to a Hermitian matrix -/
+theorem convertHR_hermitian (q : Quat K) : (convertHR q).herm = convertHR q := by alg
+/-- a real Unitary-basis quaternion maps to a scaled unitary matrix: `J J† = det · 1` -/
+theorem convertUR_scaled_unitary (q : Quat K) :
+    convertUR q * (convertUR q).herm = Jones.ofScalar (Cx.ofReal (Quat.detU q)) := by alg
+theorem herm_mul_convertUR (q : Quat K) :
+    (convertUR q).herm * convertUR q = Jones.ofScalar (Cx.ofReal (Quat.detU q)) := by alg
+theorem det_convertHR (q : Quat K) : (convertHR q).det = Cx.ofReal (Quat.detH q) := by alg
+theorem det_convertUR (q : Quat K) : (convertUR q).det = Cx.ofReal (Quat.detU q) := by alg
+theorem norm_convertHR (q : Quat K) : (convertHR q).norm = Quat.normR q := by alg
+theorem norm_convertUR (q : Quat K) : (convertUR q).norm = Quat.normR q := by alg
+theorem conj_convertHR (q : Quat K) : (convertHR q).conj = convertHR (Quat.conjHR q) := by alg
+theorem conj_convertUR (q : Quat K) : (convertUR q).conj = convertUR (Quat.conjUR q) := by alg
+theorem herm_convertUR (q : Quat K) : (convertUR q).herm = convertUR (Quat.hermUR q) := by alg
+theorem realQ_ofReal (q : Quat K) : Quat.realQ (Quat.ofReal q) = q := by alg
+theorem imagQ_ofReal (q : Quat K) : Quat.imagQ (Quat.ofReal q) = Quat.ofScalar 0 := by alg
+
+/-! ## the four unit quaternions map to the identity and the Pauli matrices -/
+def sigma0 : Jones K := ⟨⟨1,0⟩, ⟨0,0⟩, ⟨0,0⟩, ⟨1,0⟩⟩
+def sigma1 : Jones K := ⟨⟨1,0⟩, ⟨0,0⟩, ⟨0,0⟩, ⟨-1,0⟩⟩
+def sigma2 : Jones K := ⟨⟨0,0⟩, ⟨1,0⟩, ⟨1,0⟩, ⟨0,0⟩⟩
+def sigma3 : Jones K := ⟨⟨0,0⟩, ⟨0,-1⟩, ⟨0,1⟩, ⟨0,0⟩⟩
+def imagUnit : Cx K := ⟨0, 1⟩
+theorem pauli_matrix_0 : (Pauli.matrix 0 : Jones K) = sigma0 := by simp only [sigma0]; alg
+theorem pauli_matrix_1 : (Pauli.matrix 1 : Jones K) = sigma1 := by simp only [sigma1]; alg
+theorem pauli_matrix_2 : (Pauli.matrix 2 : Jones K) = sigma2 := by simp only [sigma2]; alg
+theorem pauli_matrix_3 : (Pauli.matrix 3 : Jones K) = sigma3 := by simp only [sigma3]; alg
+theorem unitU_0 : convertUR (⟨1,0,0,0⟩ : Quat K) = sigma0 := by simp only [sigma0]; alg
+theorem unitU_1 : convertUR (⟨0,1,0,0⟩ : Quat K) = Jones.smulC imagUnit sigma1 := by
+  simp only [sigma1, imagUnit]; alg
+theorem unitU_2 : convertUR (⟨0,0,1,0⟩ : Quat K) = Jones.smulC imagUnit sigma2 := by
+  simp only [sigma2, imagUnit]; alg
+theorem unitU_3 : convertUR (⟨0,0,0,1⟩ : Quat K) = Jones.smulC imagUnit sigma3 := by
+  simp only [sigma3, imagUnit]; alg
+
+/-! ## mixed products equal the products of the matrix images
+(`Jones * Quaternion`, `Quaternion * Jones`, `Quaternion<A> * Quaternion<B>` are *defined* in
+`Pauli.h` through `convert`; the content is that the images multiply like the quaternions) -/
+theorem mixed_JQh (j : Jones K) (a b : Quat (Cx K)) :
+    (j * convertHC a) * convertHC b = j * convertHC (Quat.mulH a b) := by alg
+theorem mixed_JQu (j : Jones K) (a b : Quat (Cx K)) :
+    (j * convertUC a) * convertUC b = j * convertUC (Quat.mulU a b) := by alg
+
+/-! ## non-vacuity: a concrete non-trivial instance of the guarded statements -/
+example : (Quat.detH (⟨⟨1,2⟩,⟨0,1⟩,⟨3,0⟩,⟨1,1⟩⟩ : Quat (Cx ℚ))).norm ≠ 0 := by
+  simp only [epsic, Cx.norm_def]; norm_num
+example : (Quat.detU (⟨⟨1,0⟩,⟨0,1⟩,⟨0,0⟩,⟨0,0⟩⟩ : Quat (Cx ℚ))).norm = 0 := by
+  simp only [epsic, Cx.norm_def]; norm_num
+
 end Epsic.C03
